@@ -25,6 +25,7 @@ RULE = ('(a) seeded structured programs (C01 generator) made sloppy by inserting
         'labels defined more than once in one scope. Non-trivial: the model produced >= 1 warning of a checked kind. Distinct by model.')
 RULE += ' Also: arguments / locals named null, true, false whose only use is being called; a use 150-300 levels deep in one expression; empty and __bareScript* label names. Hand-built models have function statements at top level only.'
 RULE += ' Round 7: hand-built blocks in which the only use of an argument / local is that it is CALLED, under arbitrary names (one character, empty, with blanks); labels spelled like model member names.'
+RULE += ' Round 8: an equal model whose arrays are tuples must lint the same; labels that look like composed keys (`1:A`, `ff.A`).'
 ASSUMPTIONS = [
     'hand-built models have the scopes the language has: function statements occur at top level only (the parser rejects nested definitions; lint does not look inside them)','advice is applied one warning at a time to a fresh copy of the model',
                'runs that exceed the statement budget before or after the edit are discarded (deleting a statement shifts the abort point)']
